@@ -12,6 +12,8 @@ def mkval(v):
         return np.zeros(tuple(v[1]), "float32")
     if v[0] == "int":
         return int(v[1])
+    if v[0] == "none":
+        return None
     return str(v[1])
 
 
@@ -84,6 +86,14 @@ def run_case(case):
             return {"src": src, "error": "generated source invalid: %s" % e}
         fns[which] = g[case["fname"]]
     plain = fns["plain"]
+    if case.get("twin"):
+        # an unrelated function decorated EARLIER in the process: same name, module and annotations, but every default is None
+        g2 = {"A": A, "DFLT": None, "RESULT": result_obj, "LOG": [], "__name__": "genmod"}
+        try:
+            exec(src, g2)
+            jaxtyped(typechecker=tc)(g2[case["fname"]])
+        except BaseException:  # noqa
+            pass
     # observe the source text of the synthesised checking functions
     import re
     from jaxtyping import _decorator
